@@ -169,19 +169,21 @@ def thorough_rebuild(pid):
 
 
 _SCRATCH = {}
+_SCRATCH_LOCK = __import__("threading").Lock()
 
 
 def _scratch(kind):
     """build/<kind>/p<os pid>: private to this process, removed when it exits"""
-    if kind not in _SCRATCH:
-        import atexit
-        import shutil
-        d = os.path.join(BUILD, kind, "p%d" % os.getpid())
-        shutil.rmtree(d, ignore_errors=True)
-        os.makedirs(d, exist_ok=True)
-        _SCRATCH[kind] = d
-        atexit.register(shutil.rmtree, d, True)
-    return _SCRATCH[kind]
+    with _SCRATCH_LOCK:          # coq_eval_many calls this from several threads at once
+        if kind not in _SCRATCH:
+            import atexit
+            import shutil
+            d = os.path.join(BUILD, kind, "p%d" % os.getpid())
+            shutil.rmtree(d, ignore_errors=True)
+            os.makedirs(d, exist_ok=True)
+            _SCRATCH[kind] = d
+            atexit.register(shutil.rmtree, d, True)
+        return _SCRATCH[kind]
 
 
 _COQ_HEADER = "From Coq Require Import List ZArith NArith QArith String Ascii Bool.\nImport ListNotations.\n"
